@@ -953,7 +953,7 @@ def _gen_package(rnd, n_parts):
     types = {"xml": ["application/xml", "application/vnd.x.one+xml", "application/vnd.x.two+xml"],
              "bin": ["application/vnd.openxmlformats-officedocument.presentationml.printerSettings", "application/vnd.openxmlformats-officedocument.spreadsheetml.printerSettings", "application/x-bin"],
              "png": ["image/png", "image/x-png-other"], "dat": ["application/x-dat"], "jpeg": ["image/jpeg"]}
-    dirs = ["", "a", "a/b", "a/b/c", "d"]
+    dirs = ["", "a", "a/b", "a/b/c", "d", "ab", "a/bc", "a2/b"]  # incl. sibling directories whose names are string prefixes of each other
     names = []
     for i in range(n_parts):
         d = rnd.choice(dirs)
